@@ -5,6 +5,12 @@ sys.path.insert(0, '/verif/lib')
 import props
 
 LEVEL = {
+ "C16": ("MacKayNeal.tla and Peg.tla specify the constructions with the RNG replaced by nondeterministic choice: the column guard (available rows, uniform exchange condition, local-girth test), backtracking, girth retries; PEG's per-edge guard "
+         "(unreachable, else maximal distance, then least degree). TLC explores every behaviour of small configurations and checks ResultOK (exact column weight, row bound, girth, row balance) and that every finished column was legal "
+         "when inserted. The real code is bound by trace validation: the final matrix of each successful run is replayed as an insertion trace (ColumnLegal / ColumnLegalPeg evaluated by TLC with declarative distances and local girth from "
+         "Tanner.tla), plus reproducibility (same seed twice and on another thread), seed diversity, and the rayon seed search under 1/4/16 threads against sequential runs of every seed in range.",
+         "TLC + Json/IOUtils; insertion order read from iter_col (hint only); sequential reference for the search uses the real run().",
+         "TLA+ model checking of the nondeterministic constructions + trace validation of final matrices as insertion traces", "5 C16"),
  "C13": ("BerEngine.tla (PlusCal) models the collector, W free-running workers, the unbounded result channel with its set of live sender handles, the capacity-1 terminate channels, joins, the reporter and epochs, one label per blocking or "
          "visible step. TLC explores every interleaving for W=2 (3 thorough), target 2, 1-2 epochs with three frame outcomes and checks StatsExact (counters = fold over consumed frames), StopExact, the outer-code rule, NoLeak, FinishedLast, "
          "NoStuck, and Termination as a liveness property under weak fairness in every fault mode; the as-found design (collector keeps a sender; join().unwrap()) is rejected in two negative configurations. The real engine is bound by trace "
